@@ -221,6 +221,8 @@ func checkC07(c *Ctx) {
 		fA, fB := fmtFont(spA), fmtFont(spB)
 		fA.MaxLineLength, fA.NumLines, fA.CursorOverlapWidth = 3+r.Intn(4), r.Intn(4), r.Intn(3)
 		fB.MaxLineLength, fB.NumLines, fB.CursorOverlapWidth = 3+r.Intn(4), r.Intn(4), r.Intn(3)
+		// characters missing from a font's table take that font's own "default" width
+		fA.Widths["default"], fB.Widths["default"] = 2, 3
 		cfg := parser.FontConfig{DefaultFontID: "A", Fonts: map[string]parser.Fonts{"A": fA, "B": fB}}
 		b, _ := json.Marshal(cfg)
 		fpath := filepath.Join(dir, fmt.Sprintf("f%d.json", k%8))
@@ -302,6 +304,15 @@ func checkC07(c *Ctx) {
 			effOv = ef.CursorOverlapWidth
 		}
 		effSp := map[string]int{"A": spA, "B": spB}[effFont]
+		// one word of the effective font's default width is written with a letter that is in no table
+		dw := cfg.Fonts[effFont].Widths["default"]
+		for wi, t := range toks {
+			if t == dw && r.Chance(1, 2) && strings.Count(text, words[wi]) == 1 {
+				text = strings.Replace(text, words[wi], "Q", 1)
+				words[wi] = "Q"
+				break
+			}
+		}
 		call := `format("` + text + `"`
 		if len(args) > 0 {
 			call += ", " + strings.Join(args, ", ")
